@@ -99,6 +99,13 @@ func (m *C09) After(w *world.World, a *world.Action, r *world.StepResult) *Viola
 		}
 	}
 	m0 := meterPost + sub // the meter after BeginBlock, before the packets of this block
+	if !strict && len(events) > 0 {
+		// something else in this block may have jailed or unjailed a reported validator: the meter arithmetic of
+		// this block cannot be reconstructed; start a new window history
+		w.Label("throttle-check-skipped")
+		m.allow, m.repl, m.jailedP = nil, nil, nil
+		return kmViolation
+	}
 	if strict {
 		// (b) a packet is handled only while the meter is non-negative, and then the meter drops by the jailed power
 		running := m0
@@ -125,7 +132,7 @@ func (m *C09) After(w *world.World, a *world.Action, r *world.StepResult) *Viola
 	}
 	// (a) after BeginBlock the meter is at most the allowance
 	if m0 > allowance {
-		return violf(P, "meter-above-allowance", "slash meter after begin-block of block %d is %d, allowance is %d (fraction %s of power %s)", r.Block.Height, m0, allowance, k.GetSlashMeterReplenishFraction(ctx), pre.totalPower)
+		return violf(P, "meter-above-allowance", "slash meter after begin-block of block %d is %d, allowance is %d (fraction %s of power %s); meter before the block %d, after %d, events %s", r.Block.Height, m0, allowance, k.GetSlashMeterReplenishFraction(ctx), pre.totalPower, pre.meter.Int64(), meterPost, fmtEvents(events))
 	}
 	// (c) increases happen only in BeginBlock, by at most one allowance, at least one period apart
 	delta := m0 - pre.meter.Int64()
